@@ -25,7 +25,7 @@ RULE = (
     "other context), move (other buffer, other context; also attempted on nested parts, on objects with references "
     "and on objects shared through a reference), assign a hybrid object to a hybrid-typed field (source in the same "
     "buffer, another buffer, another context, or the field's own current object), write through the source "
-    "afterwards}. Oracle after EVERY step, for every live top-level object: attributes read through the Python names "
+    "afterwards, read all array attributes, make the object's buffer grow}. Oracle after EVERY step, for every live top-level object: attributes read through the Python names "
     "== the underlying struct read through the xobject API == the model (mirror under renaming); every dressed "
     "nested part sits at the offset of the corresponding struct field in the parent's buffer; non-reference "
     "assignment is an independent copy (later source writes do not show), same-buffer reference assignment shares "
@@ -49,7 +49,7 @@ def budget(tier):
 
 def essential_labels(tier):
     return ["op:set_leaf", "op:set_leaf_nested", "op:set_array", "op:copy", "op:move_ok", "op:move_refused_nested", "op:move_refused_refs", "op:assign_copy",
-            "op:assign_ref_share", "op:assign_ref_foreign_refused", "op:write_source_after_assign", "has_rename", "field:ref", "field:hybrid", "op:set_ref_none"]
+            "op:assign_ref_share", "op:assign_ref_foreign_refused", "op:write_source_after_assign", "has_rename", "field:ref", "field:hybrid", "op:set_ref_none", "op:grow"]
 
 
 # --------------------------------------------------------------------------
@@ -74,7 +74,7 @@ def cases(draw, tier):
     nops = draw(st.integers(1, 40 if tier == "thorough" else 12))
     ops = []
     for _ in range(nops):
-        kind = draw(st.sampled_from(["set", "set", "set", "set_array", "set_array", "set_dict", "set_ref", "copy", "copy", "move", "move", "assign", "assign", "assign", "write_src"]))
+        kind = draw(st.sampled_from(["set", "set", "set", "set_array", "set_array", "set_dict", "set_ref", "copy", "copy", "move", "move", "assign", "assign", "assign", "write_src", "grow", "read_arrays"]))
         op = {"op": kind, "o": draw(st.integers(0, 50)), "i": draw(st.integers(0, 1000)), "j": draw(st.integers(0, 1000)), "w": draw(assign.op_specs)}
         if kind == "copy":
             op["dest"] = draw(st.sampled_from(["default", "same", "B", "C", "Cctx"]))
@@ -479,6 +479,24 @@ def run_case(case):
                     labels.add("op:assign_copy")
                     labels.add("op:assign_copy_" + ("same_buffer" if same_buf else "other_buffer"))
                 did_structural = True
+        elif kind == "read_arrays":
+            # touch every array attribute (a dressing layer that caches views must not serve them after the storage moved)
+            for path, cn, cm in conts:
+                tgt = sut(reach, o, n, path)
+                if is_raised(tgt) or not hasattr(tgt[0], "_xobject"):
+                    continue
+                for f in cn.h["fields"]:
+                    if f["t"]["k"] == "array":
+                        sut(getattr, tgt[0], hybgen.pyname(cn.h, f["n"]))
+            labels.add("op:read_arrays")
+        elif kind == "grow":
+            b = o._buffer
+            cap0 = int(b.capacity)
+            r = sut(b.allocate, int(b.get_free()) + 1 + op["i"] % 64)
+            if is_raised(r):
+                return fail("grow_raised", f"{step}: {r}", r.key, labels)
+            if int(b.capacity) > cap0:
+                labels.add("op:grow")
         elif kind == "write_src":
             # write through any top-level object other than the first: sources, copies
             if len(entries) < 2:
